@@ -282,6 +282,7 @@ pub struct RunRecord {
     pub token: Vec<u8>,
     pub ka_ids: Vec<u64>,
     pub shared_secret: Option<Vec<u8>>,             // the secret the client chose (if it sent one)
+    pub out_len_at_enc_response: Option<usize>,     // bytes the server had written when the client sent its Encryption Response
     pub enc_from_out_offset: Option<usize>,         // wire_out byte offset from which the client decrypted
     pub enc_from_in_offset: Option<usize>,
     pub max_alloc: usize,
@@ -536,6 +537,7 @@ pub fn run_scenario(sc: &Scenario, rng: &mut Rng) -> RunRecord {
                     let f = frame_bytes(0x01, &body);
                     push(&mut cs, &mut rec, &mut wire_in_len, &f, Some((0x01, body)));
                     rec.shared_secret = Some(ss.clone());
+                    rec.out_len_at_enc_response = Some(pipe.out_len());
                     if ss.len() == 16 && cs.last_enc_req.is_some() {
                         cs.enc = Some(Enc::new_from_slices(&ss, &ss).unwrap());
                         cs.dec = Some(Dec::new_from_slices(&ss, &ss).unwrap());
